@@ -2,7 +2,7 @@ INIT InitAlias
 NEXT NextNone
 CONSTANTS
   Ns = {1, 2, 3, 4}
-  Variants = {1, 2, 3, 4, 5}
+  Variants = {1, 2, 3, 4, 5, 6}
   Mixed = {FALSE, TRUE}
   KindPats = {"struct"}
   Compacts = {FALSE}
